@@ -222,11 +222,11 @@ def run(ctx):
     ctx.units("rows-exhaustive", unit_rows,
               [{"maxlen": maxlen, "doclen": doclen, "shard": i, "nshards": ns} for i in range(ns)], procs=ns)
     ctx.units("rows-unicode", unit_unirows,
-              [{"n": 1500 if q else 20000, "seed": ctx.seed, "shard": i} for i in range(2 if q else 16)], procs=16)
+              [{"n": 2250 if q else 20000, "seed": ctx.seed, "shard": i} for i in range(8 if q else 16)], procs=16)
     ctx.units("roundtrip", unit_roundtrip,
-              [{"n": 600 if q else 8000, "seed": ctx.seed, "shard": i} for i in range(2 if q else 16)], procs=16)
+              [{"n": 900 if q else 8000, "seed": ctx.seed, "shard": i} for i in range(8 if q else 16)], procs=16)
     ctx.units("table-shape", unit_shape,
-              [{"n": 500 if q else 6000, "seed": ctx.seed, "shard": i} for i in range(2 if q else 16)], procs=16)
+              [{"n": 750 if q else 6000, "seed": ctx.seed, "shard": i} for i in range(8 if q else 16)], procs=16)
     ctx.exhaustive = False
     ctx.extra["exhaustive_part"] = "all %d row strings over the 5 character classes {| \\ n blank other} of length <= %d" % (
         sum(5 ** i for i in range(maxlen + 1)), maxlen)
